@@ -113,6 +113,14 @@ Proof. exact hash_perm. Qed.
 Theorem C04_datetime_by_second : forall a b, a / 10 ^ 9 = b / 10 ^ 9 -> conv10 (KDate a) = conv10 (KDate b).
 Proof. intros a b H. exact H. Qed.
 
+(* An integer key column counts by its VALUE: [KInt] carries the mathematical value whatever width, signedness or
+   nullable flavour the column is stored with (the code widens to int64 before multiplying), so the storage type
+   cannot matter - by construction of the model's input; the correspondence feeds real maps the same values as
+   int8..int64 / uint8..uint64 / Int8..UInt64 (and floats as float32/float64) and expects equal positions.  The one
+   reinterpretation the code does perform - uint64 above 2^63 read as int64 - is invisible: *)
+Theorem C04_int_value_mod_2_64 : forall v, conv10 (KInt (wrap64 v)) = conv10 (KInt v).
+Proof. exact conv10_int_mod64. Qed.
+
 (* The simulant attached to a key is the one that supplied it: the simulant index is joined back on the key
    levels, never positionally.  (A map that is injective but mis-aligned violates exactly this.) *)
 Theorem C04_join_by_key : forall size crn m b t fuel m', Inj m -> update size crn m b t fuel = Ok m' ->
@@ -165,5 +173,6 @@ Print Assumptions C04_only_key_columns_matter.
 Print Assumptions C04_column_order_irrelevant.
 Print Assumptions C04_key_column_order_irrelevant.
 Print Assumptions C04_datetime_by_second.
+Print Assumptions C04_int_value_mod_2_64.
 Print Assumptions C04_join_by_key.
 Print Assumptions C04_join_by_key_history.
